@@ -124,6 +124,52 @@ Theorem c15_promotion_system_symmetry :
 Proof. exact promotion_mode_symmetry. Qed.
 Print Assumptions c15_promotion_system_symmetry.
 
+(* the sorted-rung representation (best first under the sign) through save / load: rebuilding the
+   SortedList from its stored values with the same key returns the same list, ties in their order;
+   and the rebuild commutes with the mode mirror for EVERY stored list *)
+Theorem c15_restore_keeps_best_first_rung :
+  forall md data, best_first md data -> sl_rebuild md data = data.
+Proof. exact sl_rebuild_id. Qed.
+Print Assumptions c15_restore_keeps_best_first_rung.
+
+Theorem c15_restore_commutes_with_mirror :
+  forall cfg st, c_mode cfg = Min ->
+  restore_state (with_mode Max cfg) (neg_state st) = neg_state (restore_state cfg st).
+Proof. exact restore_state_neg. Qed.
+Print Assumptions c15_restore_commutes_with_mirror.
+
+(* hence a mirrored pair of runs that is saved and loaded at the same point stays a mirrored pair *)
+Theorem c15_stopping_symmetry_across_restore :
+  forall cfg levels brackets evs1 evs2,
+  c_mode cfg = Min -> wf_levels levels (c_max_t cfg) ->
+  outcomes (with_mode Max cfg)
+           (restore_state (with_mode Max cfg) (reached (with_mode Max cfg) levels brackets (map neg_event evs1)))
+           (map neg_event evs2) =
+  outcomes cfg (restore_state cfg (reached cfg levels brackets evs1)) evs2.
+Proof. exact stopping_symmetry_across_restore. Qed.
+Print Assumptions c15_stopping_symmetry_across_restore.
+
+(* synchronous Hyperband / DEHB rung completion with failed trials (metric NaN): as long as there are
+   enough valid entries no failed trial is promoted and exactly new_len trials are - in BOTH modes *)
+Theorem c15_failed_trials_rank_last :
+  forall rung new_len md, (new_len <= length (valid_entries rung))%nat ->
+  length (fst (get_top_list rung new_len md)) = new_len /\
+  forall t, In t (fst (get_top_list rung new_len md)) -> In t (map fst (valid_entries rung)).
+Proof.
+  intros rung new_len md H. split; [exact (get_top_list_length rung new_len md H)|exact (get_top_list_failed_last rung new_len md H)].
+Qed.
+Print Assumptions c15_failed_trials_rank_last.
+
+(* MOASHA (shell around the bracket of model/Pareto.v, any priority function): for EVERY sequence of
+   on_trial_result and on_trial_complete calls, flipping the mode of any subset of metrics and negating
+   exactly those reported values gives the same decisions and the same bracket contents - entries made
+   through on_trial_complete included *)
+Theorem c15_moasha_sequence_symmetry :
+  forall prio rf max_t mask modes evs b,
+  mo_run prio rf max_t (flip_modes mask modes) b (map (mo_mirror mask) evs) = mo_run prio rf max_t modes b evs.
+Proof. intros. apply moasha_mode_symmetry. Qed.
+Print Assumptions c15_moasha_sequence_symmetry.
+
 (* non-vacuity: a run with a tie at a rung, a stop, and the mirrored run *)
 Example c15_example :
   let cfg := {| c_mode := Min; c_max_t := 9; c_per_bracket := false; c_rush := Some 1%Z |} in
@@ -147,3 +193,15 @@ Example c15_example :
 Proof.
   vm_compute. repeat split; try reflexivity; repeat constructor.
 Qed.
+
+(* non-vacuity for the restore / failure / MOASHA theorems *)
+Example c15_example_restore_failures_moasha :
+  sl_rebuild Max [{| e_trial := 1; e_metric := 5 |}; {| e_trial := 2; e_metric := 5 |}; {| e_trial := 3; e_metric := 2 |}]
+    = [{| e_trial := 1; e_metric := 5 |}; {| e_trial := 2; e_metric := 5 |}; {| e_trial := 3; e_metric := 2 |}] /\
+  get_top_list [(1%Z, None); (2%Z, Some (3 # 1)); (3%Z, Some (1 # 1))] 1 Max = ([2%Z], [1; 3]%Z) /\
+  get_top_list [(1%Z, None); (2%Z, Some (- (3 # 1))); (3%Z, Some (- (1 # 1)))] 1 Min = ([2%Z], [1; 3]%Z) /\
+  (let prio := fun X : list Pareto.vec => map (fun v => nth 0 v 0) X in
+   let b := [{| Pareto.milestone := 3; Pareto.recorded := [] |}; {| Pareto.milestone := 1; Pareto.recorded := [] |}] in
+   snd (mo_run prio 3 9 [Min; Max] b [MoComplete 0 1 [1; 7]; MoResult 1 1 [2; 8]; MoResult 2 1 [(1 # 2); 0]]) =
+     [None; Some Pareto.STOP; Some Pareto.CONTINUE]).
+Proof. vm_compute. repeat split; reflexivity. Qed.
